@@ -17,6 +17,7 @@ import (
 // trusted / completed for B.
 func c01Hub(x *Ctx) {
 	x.SigAdd("engine=hub")
+	x.S.LimitSteps(25000)
 	r := newHubRig(x)
 	a, b, c := r.addNode("A"), r.addNode("B"), r.addNode("C")
 	lat := []time.Duration{0, time.Millisecond, 40 * time.Millisecond, 400 * time.Millisecond}[x.Choose("latency", 4)]
@@ -75,7 +76,7 @@ func c01Hub(x *Ctx) {
 				}
 			}
 		}
-		simrt.Sleep(150 * time.Second)
+		simrt.Sleep(100 * time.Second)
 		if st := a.hub.PairingDetailForSki(b.ski).State(); st == 5 || st == 7 {
 			x.Violate("pairing-detail-trusted-without-trust", "", fmt.Sprintf("hub A reports pairing state %d for B, which it never trusted", st))
 			return
